@@ -127,10 +127,11 @@ func runHubFocus(c *h.Ctx, r *h.Report, focus string) {
 	n := c.Scale(60, 3000)
 	for i := 0; i < n; i++ {
 		rr := c.Rand.Fork()
-		cs := hubCase{Cfg: hubCfg{PubAlg: "HS256", SubAlg: "HS256", Anonymous: true, Bolt: i%2 == 0}}
+		cs := hubCase{ExactStream: true, Cfg: hubCfg{PubAlg: "HS256", SubAlg: "HS256", Anonymous: true, Bolt: i%2 == 0}}
 		cs.Ops = append(cs.Ops, hubOp{Op: "sub", Label: 0, Topics: []string{"*"}})
 		np := 5 + rr.Intn(21)
 		crlf := false
+		prevID := ""
 		for k := 0; k < np; k++ {
 			form := url.Values{"topic": {"t"}}
 			d := genPayload(rr)
@@ -138,6 +139,10 @@ func runHubFocus(c *h.Ctx, r *h.Report, focus string) {
 			form.Set("data", d)
 			if rr.Chance(3, 4) {
 				form.Set("id", fmt.Sprintf("i%d-%s", k, genLineFree(rr)))
+				if prevID != "" && rr.Chance(1, 4) {
+					form.Set("id", prevID) // same id as the previous update, different content
+				}
+				prevID = form.Get("id")
 			}
 			if rr.Bool() {
 				form.Set("type", genLineFree(rr))
